@@ -374,10 +374,10 @@ fn gen_string(rng: &mut Rng) -> String {
 }
 
 fn gen_env(rng: &mut Rng) -> EnvD {
-    let nf = *rng.pick(&[1usize, 1, 2, 3, 5]);
+    let nf = *rng.pick(&[1usize, 2, 3, 3, 5, 6]);
     let mut fmts = vec!['o'];
     for _ in 1..nf {
-        fmts.push(*rng.pick(&['o', 'o', 'd', 't']));
+        fmts.push(*rng.pick(&['o', 'd', 't']));
     }
     let ns = rng.below(9) as usize;
     EnvD { fmts, is1904: rng.chance(1, 4), sst: (0..ns).map(|_| gen_string(rng)).collect() }
@@ -444,11 +444,29 @@ fn gen_record(rng: &mut Rng, env: &EnvD) -> (u16, Vec<u8>, Option<String>) {
             let mut d = row.to_le_bytes().to_vec();
             d.extend_from_slice(&col.to_le_bytes());
             let mut exp = vec![];
+            let n = if rng.chance(1, 3) { n + 3 } else { n };
+            let col = col.min(65535 - n);
+            d.truncate(2);
+            d.extend_from_slice(&col.to_le_bytes());
+            let mut words: Vec<u32> = vec![];
+            let mut xfs: Vec<u16> = vec![];
             for i in 0..n {
-                let w = gen_rk_word(rng);
-                d.extend_from_slice(&0u16.to_le_bytes());
+                // a run often repeats a number (same 4 RK bytes) under another XF, and keeps an XF over other numbers
+                let w = match rng.below(6) {
+                    0 | 1 if i >= 1 => words[i as usize - 1],
+                    2 if i >= 2 => words[i as usize - 2],
+                    _ => gen_rk_word(rng),
+                };
+                let exf = match rng.below(5) {
+                    0 if i >= 1 => xfs[i as usize - 1],
+                    _ => rng.below(env.fmts.len() as u64 + 1) as u16,
+                };
+                words.push(w);
+                xfs.push(exf);
+                d.extend_from_slice(&exf.to_le_bytes());
                 d.extend_from_slice(&w.to_le_bytes());
-                exp.push(format!("{row}:{}:{}", col + i, rk_oracle(w).show()));
+                let fmt = env.fmts.get(exf as usize).copied().unwrap_or('o');
+                exp.push(format!("{row}:{}:{}", col + i, show_typed(rk_oracle(w), fmt, env.is1904)));
             }
             d.extend_from_slice(&(col + n - 1).to_le_bytes());
             (d, Some(format!("ok {}", exp.join(","))))
@@ -704,6 +722,16 @@ fn rk_candidates(bits: u64) -> Vec<u32> {
     out
 }
 
+/// a decoded number as the cell's XF types it: `Int`/`Float` under a plain format (or an ixfe beyond the table),
+/// `DateTime(serial, kind, is1904)` under a date / duration format
+fn show_typed(n: Num, fmt: char, is1904: bool) -> String {
+    if fmt == 'o' {
+        n.show()
+    } else {
+        format!("D{:016x}/{fmt}/{}", num_bits(n), is1904 as u8)
+    }
+}
+
 fn num_bits(n: Num) -> u64 {
     match n {
         Num::I(v) => (v as f64).to_bits(),
@@ -801,6 +829,26 @@ fn gen_sheet(rng: &mut Rng, env: &EnvD) -> Vec<LCell> {
             8 => (LV::Bool(rng.chance(1, 2)), if rng.chance(1, 3) { Enc::F { wide: false, blank3: false, rgce: xlsw::rgce_int(1), between: vec![] } } else { Enc::B }),
             _ => (LV::Err(rng.below(8) as usize), if rng.chance(1, 3) { Enc::F { wide: false, blank3: false, rgce: xlsw::rgce_int(1), between: vec![] } } else { Enc::B }),
         };
+        // repetition: the same number in the same encoding as the previous cell (or the one before it) under an XF
+        // drawn from the whole table (neighbouring cells of a MULRK run / consecutive RK / NUMBER records with
+        // bit-identical numbers and different format classes), and the converse (same XF, another number)
+        let (mut xf, mut v, mut enc) = (xf, v, enc);
+        let n = cells.len();
+        let back = match rng.below(8) {
+            0 | 1 if n >= 1 => Some(1),
+            2 if n >= 2 => Some(2),
+            _ => None,
+        };
+        if let Some(k) = back {
+            let p: &LCell = &cells[n - k];
+            if matches!(p.v, LV::Num(_)) && matches!(p.enc, Enc::K(_) | Enc::N) {
+                v = p.v.clone();
+                enc = p.enc.clone();
+                xf = rng.below(env.fmts.len() as u64) as u16;
+            }
+        } else if n >= 1 && rng.chance(1, 6) {
+            xf = cells[n - 1].xf;
+        }
         let prev_adjacent = cells.last().map_or(false, |p| p.row == row && p.col + 1 == col && matches!(p.enc, Enc::K(_)));
         let join = matches!(enc, Enc::K(_)) && prev_adjacent && rng.chance(2, 3);
         let before = if join && rng.chance(9, 10) { vec![] } else { gen_junk(rng) };
@@ -828,11 +876,7 @@ fn oracle_sheet(env: &EnvD, cells: &[LCell]) -> String {
                     Enc::K(w) if num_bits(rk_oracle(*w)) == *bits => rk_oracle(*w),
                     _ => Num::F(*bits),
                 };
-                if fmt == 'o' {
-                    n.show()
-                } else {
-                    format!("D{:016x}/{fmt}/{}", num_bits(n), env.is1904 as u8)
-                }
+                show_typed(n, fmt, env.is1904)
             }
             (LV::Str(s), _) => format!("S{}", scalars(s)),
             (LV::Bool(b), _) => format!("B{}", *b as u8),
@@ -1005,7 +1049,18 @@ fn gen_phys_cells(rng: &mut Rng, env: &EnvD) -> Vec<XlsCell> {
         let v = match rng.below(12) {
             0 => CellV::Number(f64::from_bits(gen_bits(rng))),
             1 => CellV::Rk(gen_rk_word(rng)),
-            2 => CellV::MulRk((0..rng.range(1, 4)).map(|_| (rng.below(env.fmts.len() as u64 + 1) as u16, gen_rk_word(rng))).collect()),
+            2 => {
+                let mut run: Vec<(u16, u32)> = vec![];
+                for i in 0..rng.range(1, 4) as usize {
+                    let w = match rng.below(5) {
+                        0 | 1 if i >= 1 => run[i - 1].1,
+                        2 if i >= 2 => run[i - 2].1,
+                        _ => gen_rk_word(rng),
+                    };
+                    run.push((rng.below(env.fmts.len() as u64 + 1) as u16, w));
+                }
+                CellV::MulRk(run)
+            }
             3 => CellV::Label(gen_string(rng), None),
             4 => CellV::LabelSst(rng.below(env.sst.len() as u64 + 2) as u32),
             5 => CellV::Bool(rng.chance(1, 2)),
@@ -1226,6 +1281,10 @@ fn corpus() -> Vec<&'static str> {
         // LABELSST naming the empty shared string reads String("") (was dropped: C19's finding, fixed from here)
         "F 6 o 0 _ 0,0,0,0,s,T0,-",
         "F 6 o 0 61/_ 0,0,0,0,s61,T0,-;2,3,0,0,s,T1,-",
+        // MULRK run repeating one number under XFs of different classes, and the same XF over different numbers
+        // (seed C02-m7: a "decode repeated entries once" cache keyed on the 4 RK bytes only)
+        "F 7 ood 0 - 0,243,2,0,nc1527e2a00000000,K4275576162,-;0,244,1,1,nc1527e2a00000000,K4275576162,-;0,245,2,1,nc1527e2a00000000,K4275576162,-;0,246,2,1,n4014000000000000,K22,-",
+        "R ot 0 - 189 ffff010001001ff4ffff02001ff4ffff00001ff4ffff0300",
         // date / time-delta XFs on NUMBER and RK cells, 1904 workbook
         "F 4 odt 1 - 0,0,1,0,n40e5700000000000,N,-;0,1,2,0,n3fe0000000000000,K1071644672,-;0,2,1,0,n4059000000000000,K402,-",
     ]
@@ -1250,6 +1309,11 @@ fn run_input(input: &str, drv: &mut Driver, rep: &mut Report, shrink_budget: &mu
             let b = Book::parse(&p);
             book_case(b, drv, rep, shrink_budget);
         }
+        "B" => {
+            let b = big_sst_book(p[1].parse().unwrap());
+            rep.count("file.big_sst");
+            book_case_named(b, Some(input.to_string()), drv, rep, shrink_budget);
+        }
         "M" => {
             let ph = Phys { seed: p[1].parse().unwrap(), env: EnvD::parse(p[2], p[3], p[4]), sub: unhex(p[5]) };
             phys_case(&ph, "replay", drv, rep);
@@ -1258,8 +1322,38 @@ fn run_input(input: &str, drv: &mut Driver, rep: &mut Report, shrink_budget: &mu
     }
 }
 
+/// the big-SST family `B <seed>`: a shared string table of 65536 + k distinct short strings (k = 1..8) and LABELSST
+/// cells naming entries on both sides of the 16-bit boundary (isst is a 32-bit field: entry 65536 + j must not read
+/// as entry j). The case text is the seed only; the workbook is rebuilt from it.
+fn big_sst_book(seed: u64) -> Book {
+    let mut rng = Rng::new(seed ^ 0xB165_57);
+    let k = 1 + rng.below(8) as usize;
+    let sst: Vec<String> = (0..65536 + k).map(|i| format!("s{i:x}")).collect();
+    let mut cells = vec![];
+    let mk = |row: u16, col: u16, i: usize, sst: &Vec<String>| LCell {
+        row,
+        col,
+        xf: 0,
+        join: false,
+        v: LV::Str(sst[i].clone()),
+        enc: Enc::T(i as u32),
+        before: vec![],
+    };
+    cells.push(mk(0, 0, 65535, &sst));
+    for j in 0..k {
+        cells.push(mk(1 + j as u16, 0, j, &sst));
+        cells.push(mk(1 + j as u16, 1, 65536 + j, &sst));
+    }
+    Book { env: EnvD { fmts: vec!['o'], is1904: false, sst }, sheets: vec![cells], seed }
+}
+
 fn book_case(b: Book, drv: &mut Driver, rep: &mut Report, shrink_budget: &mut u32) {
-    let input = b.wire();
+    book_case_named(b, None, drv, rep, shrink_budget)
+}
+
+fn book_case_named(b: Book, label: Option<String>, drv: &mut Driver, rep: &mut Report, shrink_budget: &mut u32) {
+    let named = label.is_some();
+    let input = label.unwrap_or_else(|| b.wire());
     let ncells: usize = b.sheets.iter().map(|s| s.len()).sum();
     rep.case(&input, ncells >= 2);
     rep.add("file.cells", ncells as u64);
@@ -1303,7 +1397,7 @@ fn book_case(b: Book, drv: &mut Driver, rep: &mut Report, shrink_budget: &mut u3
     }
     let fails = run_book(&b, drv, None);
     for (kind, sig, i, m, e) in fails {
-        if *shrink_budget > 0 {
+        if *shrink_budget > 0 && !named {
             *shrink_budget -= 1;
             let small = shrink_book(Book { env: b.env.clone(), sheets: b.sheets.clone(), seed: b.seed }, &kind, &sig, drv);
             let f2 = run_book(&small, drv, None);
@@ -1344,6 +1438,8 @@ fn main() {
          LABELSST / BOOLERR / FORMULA(+STRING, blank-string type 3) / ignorable records before cells and between FORMULA and STRING; \
          XF table with date and duration formats, 1904 flag, SST with CONTINUE cuts) encoded by the Lean encoder, wrapped by xlsw+cfbw with a \
          random container layout, read by Xls::new + worksheet_range, compared with Lean `dec` and with the bounding-box/value oracle. \
+         B: one workbook per run (3 in thorough) with a shared string table of 65536 + k strings and LABELSST cells on both sides of the 16-bit boundary. \
+         MULRK runs, consecutive RK and NUMBER records repeat numbers (same bytes) under XFs of different format classes and keep an XF over different numbers (adjacent and at distance 2). \
          M: Rust-encoded substreams with physical oddities (STRING without FORMULA, CONTINUE, MERGECELLS, 1-cell MULRK, LABELSST beyond the table) \
          and one structural fault (impl vs model only). Non-trivial = a file with >= 2 cells, a record with an oracle, any K/M case; distinct by input text. \
          Generator restrictions: FORMULA token strings are always `PtgInt` (the token decoder is C14's); strings never start with a BOM-like unit.",
@@ -1354,6 +1450,9 @@ fn main() {
     } else {
         for c in corpus() {
             run_input(c, &mut drv, &mut rep, &mut shrink_budget);
+        }
+        for j in 0..if args.thorough() { 3 } else { 1 } {
+            run_input(&format!("B {}", args.seed.wrapping_add(j)), &mut drv, &mut rep, &mut shrink_budget);
         }
         #[cfg(feature = "hooks")]
         rk_sweeps(&args, &mut rep, &mut drv);
